@@ -370,7 +370,11 @@ EvSnap ==
   /\ LET s == Trace[l].s
          h == IF halted = "maybe" THEN (IF s.last.c = "incons" THEN "yes" ELSE "no") ELSE halted
      IN /\ halted' = h
-        /\ viol' = viol \o (IF h = "yes" THEN RefusingViolations(s)
+        \* C14: the halt is cleared by a reorg that removed processed blocks (and by nothing else): a node that the history
+        \* says is not halted answers
+        /\ viol' = viol \o (IF h = "no" /\ s.last.c = "incons"
+                            THEN <<V("HaltClearedByEffectiveReorg", [after |-> lastOp])>> ELSE <<>>)
+                       \o (IF h = "yes" THEN RefusingViolations(s)
                             ELSE IF kind = "l1info" THEN L1ServingViolations(s)
                             ELSE IF kind = "ger" THEN GerServingViolations(s) ELSE ServingViolations(s))
   /\ l' = l + 1 /\ UNCHANGED <<t, kind, lostG, applied, lastOp>>
